@@ -386,7 +386,7 @@ def c20(run):
            need_actions=("Sum", "Fill"), heap="6g", timeout=3000)
     run.sample_file(out1, k=2)
     run.sample_file(out2, k=2)
-    run.replay([out1], "CStr vectors")
+    run.replay([out1, out1 + ".utf8"], "CStr and from_utf8 vectors")
     run.record_and_validate("CStr", "Trace_CStr", "Trace_CStr.cfg", n_files=2 if q else 8, n_events=3000 if q else 10000)
     _concat_cases(run, out2, "C20-concat").execute()
     run.exhaustive = False
